@@ -909,6 +909,12 @@ def f_gen():
                                             "pvs": [{"name": b("zauto"), "hide": False}, {"name": b("zon"), "hide": False}]}],
                                   [t("zsub", [{"short": [], "long": b("zwhen"), "lvaliases": [], "takes": True, "optional": True,
                                                "pvs": [{"name": b("zearly"), "hide": False}, {"name": b("zlate"), "hide": False}]}])])),
+        # a value hint next to possible values: the values still have to be offered
+        g("hint-with-pvs", t("prog", [{"short": b("m"), "long": b("zmode"), "lvaliases": [], "takes": True, "hint": "other",
+                                       "pvs": [{"name": b("zappend"), "hide": False}, {"name": b("zmirror"), "hide": False}]}],
+                             [t("zsync", [{"short": [], "long": b("zdest"), "lvaliases": [], "takes": True, "hint": "dir",
+                                           "pvs": [{"name": b("zhere"), "hide": False}, {"name": b("zthere"), "hide": False}]},
+                                          {"short": [], "long": b("zfile"), "lvaliases": [], "takes": True, "hint": "file", "pvs": []}])])),
         # recorded witness classes
         g("mangle-collision", t("prog", [], [t("my-sub", [o("p", "zmysubopt")]), t("my", [o("q", "zmyopt")], [t("sub", [o("r", "zsubopt")])])])),
         g("double-underscore-name", t("prog", [], [t("a__b", [o("p", "zaubopt")]), t("zc")])),
@@ -917,6 +923,7 @@ def f_gen():
         def fill(x):
             for op in x["opts"]:
                 op.setdefault("optional", False)
+                op.setdefault("hint", "")
             for sx in x["subs"]:
                 fill(sx)
         fill(d["tree"])
